@@ -379,13 +379,16 @@ def rule_pattern_verbatim(ctx, rep, rule_id="R-PATTERN-VERBATIM"):
     mod = pa.module
     n = 0
     actions = {}
-    for c in walk_no_nested(pa.node):
-        if isinstance(c, ast.Call) and last_attr(c.func) == "add_argument" and c.args and isinstance(c.args[0], ast.Constant) and c.args[0].value in PATTERN_FLAGS:
-            act = next((k.value for k in c.keywords if k.arg == "action"), None)
-            q = ctx.prog.resolve_expr_name(mod, act) if act is not None and not isinstance(act, ast.Constant) else None
-            if q is None or q not in ctx.prog.classes:
-                raise AnalysisError(f"parse_args: the action of {c.args[0].value} is not a class of the repository ({unparse(act) if act is not None else 'none'})")
-            actions[c.args[0].value] = q
+    from ..cli_model import options as cli_options
+
+    for o in cli_options(ctx):  # the parser construction interpreted (loops over flag tables, helper functions, f-string flags)
+        for fl in o.flags:
+            if fl in PATTERN_FLAGS:
+                act = o.kw.get("action")
+                q = ctx.prog.resolve_expr_name(mod, act) if act is not None and not isinstance(act, ast.Constant) else None
+                if q is None or q not in ctx.prog.classes:
+                    raise AnalysisError(f"parse_args: the action of {fl} is not a class of the repository ({unparse(act) if act is not None else 'none'})")
+                actions[fl] = q
     if set(actions) != PATTERN_FLAGS:
         raise AnalysisError(f"parse_args: flags {sorted(PATTERN_FLAGS - set(actions))} not found")
     scanned: list[FuncInfo] = []
